@@ -62,7 +62,8 @@ def rule_ignored(run, fx, rule, select, floors=True, floor_n=1):
         # the function's entry is the number of its audited ignored fields, so one more ignored read in the same reader exceeds it
         key = "ignored|%s" % b.root
         run.fail(rule, key, "%s reads a value from the font into `%s` and never uses it: if the field positions, counts or selects what follows, the "
-                 "reader now takes that from somewhere else" % (b.path, name), b.loc(t), ledger="ignored", alt_keys=fx.alt_keys(b, key))
+                 "reader now takes that from somewhere else" % (b.path, name), b.loc(t), ledger="ignored",
+                 alt_keys=tuple("ignored|%s" % c for c in fx.caller_roots(b)))
     if floors:
         run.floor(rule, "ignored reads in scope", n, floor_n)
     return n
